@@ -87,3 +87,26 @@ func snapVal(sb *strings.Builder, fd protoreflect.FieldDescriptor, v protoreflec
 		fmt.Fprintf(sb, "%v", v.Interface())
 	}
 }
+
+// SnapDiff shows the first region where two snapshots differ.
+func SnapDiff(before, after string) string {
+	i := 0
+	for i < len(before) && i < len(after) && before[i] == after[i] {
+		i++
+	}
+	lo := i - 60
+	if lo < 0 {
+		lo = 0
+	}
+	cut := func(s string) string {
+		hi := i + 100
+		if hi > len(s) {
+			hi = len(s)
+		}
+		if lo > len(s) {
+			return ""
+		}
+		return "…" + s[lo:hi] + "…"
+	}
+	return fmt.Sprintf("first difference at offset %d:\n  before %s\n  after  %s", i, cut(before), cut(after))
+}
